@@ -163,4 +163,12 @@ def _z3v():
 
 
 if __name__ == '__main__':
-    main()
+    try:
+        main()
+    except SystemExit:
+        raise
+    except BaseException as e:      # machinery failure (MIR dump failed, harness bug, ...): inconclusive, never exit 1
+        import traceback
+        traceback.print_exc()
+        log('INCONCLUSIVE: the check could not run: %r' % (e,))
+        sys.exit(2)
